@@ -586,7 +586,24 @@ def m_get(c):
         start, end, incl = rb
         if end is None:
             end = ln
-        return ("opt", "cond", ("and", ("cmp", "Le", start, end), ("cmp", "Le", end, ln)), None)
+        cond = ("and", ("cmp", "Le", start, end), ("cmp", "Le", end, ln))
+        # the payload is a new slice rooted at the destination, end - start long (as for `&s[a..b]`)
+        d = c.dest_place()
+        st = c.st
+        if d is not None and c.args[1][1] is not None:
+            sub = c.an.binop(st, "Sub", end, c.args[1][1], start, c.args[1][1], None)
+            sub_iv = st.val_iv(sub[1] if sub[0] == "diff" else sub) if sub[0] in ("n", "iv", "diff") else (0, LEN_MAX)
+            st.kill(d, whole_local=not d[1])
+            steps = d[1] + (("dc", "Some"), "0", "*")
+            nl = ("len", d[0], steps)
+            st.set_iv(nl, 0, LEN_MAX)
+            if sub_iv[0] is not None and sub_iv[0] >= 0:
+                st.set_iv(nl, sub_iv[0], sub_iv[1])
+            if sub[0] == "n" and not (sub[1] is not None and sub[1][1] == d[0]):
+                st.add_eq(("n", nl, 0), sub)
+            st.sym[d] = ("opt", "cond", cond, ("ref", d[0], steps))
+            return "stored"
+        return ("opt", "cond", cond, None)
     return None
 
 
